@@ -38,16 +38,25 @@ def combos(deg):
     return [(t - j, j) for t in range(deg + 1) for j in range(t + 1)]
 
 
-def mk_trend(es, ns, deg, pdeg, coef, kind, s=1.0):
-    """s (a power of two, so everything stays exactly representable): common scale of the coordinates; the polynomial is c_ij (x/s)^i (y/s)^j."""
+def mk_trend(es, ns, deg, pdeg, coef, kind, s=1.0, sn=None, f32=False):
+    """s, sn (powers of two, so everything stays exactly representable): scales of the easting and the northing (the same unless sn is given -
+    a survey much longer than wide, or coordinates in different units); the polynomial is c_ij (x/s)^i (y/sn)^j.
+    f32: the data are handed over in single precision (the model fits the rounded values)."""
     cb = combos(deg)
-    if s != 1.0:
-        es, ns = [x * s for x in es], [y * s for y in ns]
-        coef = [c / s ** (i + j) for c, (i, j) in zip(coef, cb)]
+    sn = s if sn is None else sn
+    if s != 1.0 or sn != 1.0:
+        es, ns = [x * s for x in es], [y * sn for y in ns]
+        coef = [c / (s ** i * sn ** j) for c, (i, j) in zip(coef, cb)]
+    if f32:
+        d32 = [float(np.float32(float(sum(C.fq(c) * C.fq(x) ** i * C.fq(y) ** j for c, (i, j) in zip(coef, cb))))) for x, y in zip(es, ns)]
+        qe = [es[0] + 0.375 * s, 0.5 * s, -3.25 * s, es[-1] * 2]
+        qn = [ns[0] - 0.125 * sn, -1.5 * sn, 2.0 * sn, ns[-1] * 2]
+        return {"fn": "trend", "kind": kind + "-f32data", "args": [es, ns, deg, coef, d32, qe, qn, False],
+                "op": f"trend_fit {C.enc(es)} {C.enc(ns)} {C.enc(d32)} none {deg} {C.enc(qe)} {C.enc(qn)}"}
     d = [float(sum(C.fq(c) * C.fq(x) ** i * C.fq(y) ** j for c, (i, j) in zip(coef, cb))) for x, y in zip(es, ns)]
     exact = all(C.fq(v) == sum(C.fq(c) * C.fq(x) ** i * C.fq(y) ** j for c, (i, j) in zip(coef, cb)) for v, x, y in zip(d, es, ns))
     qe = [es[0] + 0.375 * s, 0.5 * s, -3.25 * s, es[-1] * 2]
-    qn = [ns[0] - 0.125 * s, -1.5 * s, 2.0 * s, ns[-1] * 2]
+    qn = [ns[0] - 0.125 * sn, -1.5 * sn, 2.0 * sn, ns[-1] * 2]
     return {"fn": "trend", "kind": kind, "args": [es, ns, deg, coef, d, qe, qn, exact],
             "op": f"trend_fit {C.enc(es)} {C.enc(ns)} {C.enc(d)} none {deg} {C.enc(qe)} {C.enc(qn)}"}
 
@@ -107,6 +116,11 @@ def corpus():
         coef = [rng.randint(-16, 16) / 4.0 or 1.0 for _ in combos(deg)]                                   # every monomial present
         for e2 in (-7, 0, 17):
             cs.append(mk_trend(et, nt, deg, deg, coef, f"corpus-trend-{deg}-full-scale2^{e2}", 2.0 ** e2))
+        # a survey far longer than wide (or easting and northing in different units): the two directions live in different binades
+        for e2, n2 in ((17, 19), (20, 17), (5, -3)):
+            cs.append(mk_trend(et, nt, deg, deg, coef, f"corpus-trend-{deg}-anisotropic-2^{e2}-2^{n2}", 2.0 ** e2, 2.0 ** n2))
+        # single-precision data at map-projection magnitudes (judged at single-precision accuracy)
+        cs.append(mk_trend(et, nt, deg, deg, coef, f"corpus-trend-{deg}-scale2^17", 2.0 ** 17, 2.0 ** 18, f32=True))
     # finding F2 (known_findings.json): SciPy's simplex search misses a hull vertex when the offset is ~1e3 x the extent and rescale=False
     f2e = [159.945, 159.96375, 160.0525, 159.9725, 159.96, 159.99875, 160.04625, 159.98875, 159.94625, 159.9525, 160.07375, 159.92875, 160.075, 160.04, 159.97875, 160.065, 160.04875]
     f2n = [-160.04125, -160.05375, -159.9325, -159.93125, -159.97875, -159.9525, -160.03875, -159.97375, -160.03875, -160.04375, -159.99875, -159.93125, -160.0, -160.0475, -160.0675, -159.94, -159.98125]
@@ -131,7 +145,9 @@ def generate(rng, tier):
             es, ns = pts(rng, npar + rng.randint(2, 8), rng.choice([0.125, 0.25]), 0.0)
             coef = [rng.randint(-16, 16) / 4.0 if (i + j) <= pdeg else 0.0 for (i, j) in combos(deg)]
             e2 = rng.choice([-7, -3, 0, 0, 7, 17])       # coordinates of order 1e-2 .. 1e5 (the fit is scale-free by design: unit-variance columns)
-            cs.append(mk_trend(es, ns, deg, pdeg, coef, f"trend-{deg}-poly{pdeg}" + (f"-scale2^{e2}" if e2 else ""), 2.0 ** e2))
+            n2 = e2 + rng.choice([0, 0, 0, -2, 2, 3])
+            cs.append(mk_trend(es, ns, deg, pdeg, coef, f"trend-{deg}-poly{pdeg}" + (f"-scale2^{e2}" if e2 else "") + (f"-north2^{n2}" if n2 != e2 else ""),
+                               2.0 ** e2, 2.0 ** n2, f32=rng.random() < 0.1))
             continue
         npts = rng.randint(3, maxpts)
         es, ns = pts(rng, npts, scale, offset)
@@ -182,7 +198,7 @@ def impl(case):
             warnings.simplefilter("ignore")
             if case["fn"] == "trend":
                 es, ns, deg, coef, d, qe, qn, exact = a
-                t = vd.Trend(deg).fit((np.array(es), np.array(ns)), np.array(d))
+                t = vd.Trend(deg).fit((np.array(es), np.array(ns)), np.array(d, dtype="float32") if case["kind"].endswith("-f32data") else np.array(d))
                 return {"coef": [float(v) for v in t.coef_], "pred": [float(v) for v in t.predict((np.array(qe), np.array(qn)))]}
             which, es, ns, shape2d, data, params = a
             g, ncomp = build(which, params)
@@ -298,6 +314,14 @@ def compare(case, io, mo):
         L = max(abs(v) for v in case["args"][0] + case["args"][1]) or 1.0
         wts = [L ** (i + j) for (i, j) in combos(case["args"][2])]
         sc = max(1.0, max(abs(v) * w for v, w in zip(coef_m, wts)))
+        if case["kind"].endswith("-f32data"):
+            # single-precision data make a single-precision design matrix (by design): judged on the predictions, at single-precision accuracy
+            # times the conditioning such systems have (1e-2 of the data's size; a lost or zeroed term is of the data's size)
+            dsc = max(1.0, max(abs(v) for v in case["args"][4]))
+            for x, y in zip(r["pred"][:2], pred_m[:2]):
+                if not (abs(x - y) <= 1e-2 * max(dsc, abs(y))):
+                    return f"diff:prediction {x} vs {y} (single-precision data)"
+            return "ok"
         for x, y, w in zip(r["coef"], coef_m, wts):
             if not (abs(x - y) * w <= 1e-6 * sc):
                 return f"diff:coef {x} vs {y}"
